@@ -189,7 +189,8 @@ func runC14(c *fw.Ctx) {
 				p := e.Last.EntParams
 				what := "ent params in the accepted window"
 				if r.Chance(70) {
-					p.Denom = []string{lab.Denom2, "other"}[r.Intn(2)]
+					// (the last one: the current denomination in another letter case - a different, valid one)
+					p.Denom = []string{lab.Denom2, "other", strings.ToUpper(p.Denom)}[r.Intn(3)]
 					what += " denom=" + p.Denom
 				} else {
 					p.MinAccepts, p.EntSigners = 1, e.L.Accts[r.Intn(3)].Addr.String()
@@ -231,7 +232,7 @@ func runC14(c *fw.Ctx) {
 				wreg.Owner = pa.Addr.String()
 				e.Block(time.Second, g.plan(pa, sdk.NewCoins(sdk.NewInt64Coin(e.Last.WrkParams.Denom, feeAmt)), wreg))
 				p := e.Last.EntParams
-				p.Denom = []string{lab.Denom2, "other"}[r.Intn(2)]
+				p.Denom = []string{lab.Denom2, "other", strings.ToUpper(p.Denom)}[r.Intn(3)]
 				e.Gov("ent denom="+p.Denom+" with everything spent", &enttypes.MsgUpdateParams{Authority: lab.GovAuthority(), Params: p})
 				if e.Halted == "" {
 					e.Block(time.Second, g.plan(pa, nil, &enttypes.MsgUndPurchaseOrder{Purchaser: pa.Addr.String(), Amount: sdk.NewInt64Coin(e.Last.EntParams.Denom, 12345)}))
@@ -290,7 +291,7 @@ func runC14(c *fw.Ctx) {
 			p.DecisionTimeLimit = r.PickU64([]uint64{3, 20, 1000})
 			what := "ent params"
 			if r.Chance(35) {
-				p.Denom = []string{lab.Denom, lab.Denom2, "other"}[r.Intn(3)]
+				p.Denom = []string{lab.Denom, lab.Denom2, "other", strings.ToUpper(p.Denom)}[r.Intn(4)]
 				what = "ent params denom=" + p.Denom
 			}
 			if len(obs.RaisedQ)+len(obs.AcceptedQ) > 0 {
